@@ -14,7 +14,7 @@ META = dict(
     engines=["product"],
     technique="exhaustive enumeration of the complete FFT-backend / planning / threads / precision configuration space x simulation pipelines; differential oracle",
     text="Each of 8 pipelines is executed under every supported combination of fft backend, FFTW planning effort, FFTW threads and precision (10 "
-         "configurations quick, 14 thorough; the unsupported mkl backend must be rejected) and compared with the numpy/float64 reference.",
+         "configurations quick, 14 thorough; the unsupported mkl backend must be rejected) and compared with the numpy/float64 reference. Pipelines that reuse FFT plans and buffers (eager multi-configuration runs, one propagator over four arrays), fftn / ifftn over every contiguous axis subset of 3-5-D arrays and one FFTW_PATIENT configuration are part of the quick tier.",
     note="Bound: the installed backends (numpy, fftw); grids <= 24x24. Tolerance 2e-5 of max. The "
          "configuration is switched with abtem.config.set inside one worker process; FFTW wisdom accumulated earlier in the process is part of "
          "the explored environment.",
